@@ -652,8 +652,9 @@ int process_patch(const Options& options)
             }
 
             if (write_to_file) {
-                // Ensure that parent directories exist if we are adding a file (a backup of it lives there too).
-                if (patch.operation == Operation::Add)
+                // Ensure that parent directories exist if we are adding a file (a backup of it lives there too),
+                // or moving or copying a file to somewhere new.
+                if (patch.operation == Operation::Add || patch.operation == Operation::Rename || patch.operation == Operation::Copy)
                     ensure_parent_directories(output_file);
 
                 if (should_backup)
